@@ -1,5 +1,190 @@
-"""Kani engine (numeric leaves, builtins, bounded stand-ins). Filled in per property."""
+"""Kani engine: numeric leaves (complete, loop-free, full-domain), builtins per (name, shape), bounded stand-ins.
+
+The harness module is spliced into a scratch copy of /repo's current working tree (dev-dependencies and
+Cargo.lock dropped: the library has no default dependencies) as `#[cfg(kani)] mod verif_kani;`.
+"""
+import json
+import os
+import re
+import shutil
+import subprocess
+import sys
+import time
+
+HERE = os.path.dirname(os.path.abspath(__file__))
+ROOT = os.path.dirname(HERE)
+sys.path.insert(0, os.path.join(ROOT, 'kani'))
+import checklib as cl
+from checklib import Undecided
+
+
+def load_harnesses():
+    import importlib
+    import harnesses
+    importlib.reload(harnesses)
+    hs = list(harnesses.H)
+    try:
+        import builtin_harnesses
+        importlib.reload(builtin_harnesses)
+        hs += builtin_harnesses.H
+    except ImportError:
+        pass
+    return hs
+
+
+def select(prop, tier):
+    out = []
+    for h in load_harnesses():
+        if prop in h['props'] and (h['tier'] == 'quick' or tier == 'thorough'):
+            out.append(h)
+    return out
+
+
+def render(hs):
+    pre = open(os.path.join(ROOT, 'kani', 'harness_prelude.rs')).read()
+    parts = [pre]
+    for h in hs:
+        attrs = h.get('attrs') or ''
+        parts.append('// %s\n#[kani::proof]\n%sfn %s() {\n%s\n}\n' % (h.get('doc', ''), attrs + ('\n' if attrs else ''), h['name'], h['body']))
+    return '\n'.join(parts)
+
+
+def make_crate(scratch, hs):
+    d = os.path.join(scratch, 'kani_crate')
+    shutil.rmtree(d, ignore_errors=True)
+    os.makedirs(d)
+    shutil.copytree(os.path.join(cl.REPO, 'src'), os.path.join(d, 'src'))
+    toml = open(os.path.join(cl.REPO, 'Cargo.toml')).read()
+    toml2 = re.sub(r'\[dev-dependencies\].*?(?=\n\[|\Z)', '', toml, flags=re.S)
+    open(os.path.join(d, 'Cargo.toml'), 'w').write(toml2)
+    lib = os.path.join(d, 'src', 'lib.rs')
+    s = open(lib).read()
+    open(lib, 'w').write(s + '\n#[cfg(kani)]\nmod verif_kani;\n')
+    open(os.path.join(d, 'src', 'verif_kani.rs'), 'w').write(render(hs))
+    os.makedirs(os.path.join(d, '.cargo'))
+    open(os.path.join(d, '.cargo', 'config.toml'), 'w').write('[net]\noffline = true\n')
+    return d
+
+
+def kani_cmd(names, jobs, extra=None):
+    cmd = ['cargo', 'kani', '--output-format', 'terse', '-j', str(jobs)]
+    for n in names:
+        cmd += ['--harness', 'verif_kani::' + n]
+    cmd += ['--exact'] if False else []
+    if extra:
+        cmd += extra
+    return cmd
+
+
+def parse_terse(out, names):
+    """{harness: {'ok': bool, 'time': float, 'failed_checks': [..]}}"""
+    res = {}
+    # split per thread blocks: "Thread k: Checking harness verif_kani::name..." then later "Thread k: \nVERIFICATION RESULT: ... VERIFICATION:- X"
+    thread_h = {}
+    cur_thread = None
+    lines = out.split('\n')
+    i = 0
+    single = None
+    while i < len(lines):
+        ln = lines[i]
+        mm = re.match(r'^(?:Thread (\d+): )?Checking harness (?:verif_kani::)?([A-Za-z0-9_]+)', ln)
+        if mm:
+            t = mm.group(1)
+            if t is None:
+                single = mm.group(2)
+            else:
+                thread_h[t] = mm.group(2)
+            i += 1
+            continue
+        mm = re.match(r'^Thread (\d+):\s*$', ln)
+        if mm:
+            cur_thread = mm.group(1)
+        mm = re.match(r'^VERIFICATION:- (SUCCESSFUL|FAILED)', ln)
+        if mm:
+            name = thread_h.get(cur_thread) if cur_thread is not None else single
+            if name:
+                res.setdefault(name, {})['ok'] = mm.group(1) == 'SUCCESSFUL'
+        mm = re.match(r'^Verification Time: ([0-9.]+)s', ln)
+        if mm:
+            name = thread_h.get(cur_thread) if cur_thread is not None else single
+            if name:
+                res.setdefault(name, {})['time'] = float(mm.group(1))
+        mm = re.match(r'^Failed Checks: (.*)$', ln)
+        if mm:
+            name = thread_h.get(cur_thread) if cur_thread is not None else single
+            if name:
+                res.setdefault(name, {}).setdefault('failed_checks', []).append(mm.group(1))
+        i += 1
+    return res
+
+
+def playback(crate, h, timeout):
+    """rerun one failing harness with concrete playback; returns (values, raw)"""
+    cmd = ['cargo', 'kani', '--harness', 'verif_kani::' + h['name'], '-Z', 'concrete-playback', '--concrete-playback=print'] + (h.get('extra') or [])
+    env = dict(os.environ, CARGO_NET_OFFLINE='true')
+    try:
+        p = subprocess.run(cmd, cwd=crate, capture_output=True, text=True, timeout=timeout, env=env)
+    except subprocess.TimeoutExpired:
+        return None, 'playback timed out'
+    out = p.stdout + p.stderr
+    vals = []
+    # concrete playback prints a unit test containing `vec![...]` byte vectors, one per kani::any() in order
+    for mm in re.finditer(r'//\s*(-?[0-9.eE+naifNA]+)\s*\n\s*vec!\[([0-9, ]*)\]', out):
+        vals.append({'repr': mm.group(1), 'bytes': [int(x) for x in mm.group(2).split(',') if x.strip()]})
+    fails = re.findall(r'Failed Checks: (.*)', out)
+    return {'values': vals, 'failed_checks': fails}, out[-5000:]
 
 
 def run(prop, tier, seed, scratch):
-    return {'obligations': [], 'failures': [], 'trusted': [], 'cmds': [], 'bounded': [], 'wall': 0}
+    hs = select(prop, tier)
+    if not hs:
+        return {'obligations': [], 'failures': [], 'trusted': [], 'cmds': [], 'bounded': [], 'wall': 0}
+    t0 = time.time()
+    crate = make_crate(scratch, load_harnesses())
+    env = dict(os.environ, CARGO_NET_OFFLINE='true')
+    jobs = int(os.environ.get('VERIF_JOBS', '16'))
+    # group harnesses by extra flags (unwind sets, stubbing)
+    groups = {}
+    for h in hs:
+        groups.setdefault(tuple(h.get('extra') or ()), []).append(h)
+    results = {}
+    cmds = []
+    budget = int(os.environ.get('VERIF_KANI_TIMEOUT', '3600' if tier == 'thorough' else '1500'))
+    raw_all = ''
+    for extra, group in groups.items():
+        cmd = kani_cmd([h['name'] for h in group], min(jobs, len(group)), list(extra))
+        cmds.append('CARGO_NET_OFFLINE=true ' + ' '.join(cmd))
+        try:
+            p = subprocess.run(cmd, cwd=crate, capture_output=True, text=True, timeout=budget, env=env)
+        except subprocess.TimeoutExpired:
+            raise Undecided('kani timed out after %ds on %d harnesses' % (budget, len(group)))
+        out = p.stdout + '\n' + p.stderr
+        raw_all += out[-20000:]
+        if 'error: could not compile' in out or 'error[E' in out:
+            errs = re.findall(r'error[^\n]*\n[^\n]*', out)[:3]
+            raise Undecided('kani harness crate does not compile (signature drift?): %s' % ' | '.join(e.replace('\n', ' ') for e in errs)[:600])
+        results.update(parse_terse(out, [h['name'] for h in group]))
+    obligations = []
+    failures = []
+    bounded = []
+    for h in hs:
+        r = results.get(h['name'])
+        if r is None or 'ok' not in r:
+            raise Undecided('kani gave no verdict for harness %s: %s' % (h['name'], raw_all[-300:].replace('\n', ' ')))
+        name = 'kani:' + h['name']
+        ob = {'name': name, 'expected': 1, 'ok': r['ok'], 'time_ms': int(r.get('time', 0) * 1000), 'rlimit': None,
+              'backend': 'cadical via cbmc (kani 0.68)', 'doc': h.get('doc', ''), 'bounded': h.get('bounded')}
+        obligations.append(ob)
+        if h.get('bounded'):
+            bounded.append({'harness': h['name'], 'bound': h['bounded']})
+        if not r['ok']:
+            pb, raw = playback(crate, h, 900)
+            w = None
+            if pb:
+                import witness
+                w = witness.from_kani(h, pb, scratch)
+            failures.append({'obligation': name + '#' + (';'.join((pb or {}).get('failed_checks') or r.get('failed_checks') or ['failed']))[:200],
+                             'engine': 'kani', 'kind': 'kani', 'message': 'Kani refuted harness %s: %s' % (h['name'], h.get('doc', '')),
+                             'clause': h['body'][:600], 'witness': w, 'output': raw})
+    trusted = ['kani: CBMC bit-precise semantics of Rust MIR (Kani 0.68 / CBMC 6.11); termination not proved by Kani']
+    return {'obligations': obligations, 'failures': failures, 'trusted': trusted, 'cmds': cmds, 'bounded': bounded, 'wall': time.time() - t0}
